@@ -638,38 +638,40 @@ def exact_rule(ctx, r):
     mi = g.calls_to(MI)
     REP = "regex_syntax::hir::Repetition"
 
-    def minmax(e):
-        return e.k == "bin" and mentions_field(e, REP, "min") and mentions_field(e, REP, "max")
-    lt = cond_switches(g, lambda e: minmax(e) and e[1] == "Lt", ebg)
-    ne1 = cond_switches(g, lambda e: is_call(e, "core::cmp::PartialEq::ne") and mentions_field(e, REP, "max"), ebg)
-    gtl = cond_switches(g, lambda e: e.k == "bin" and e[1] == "Gt" and mentions_field(e, REP, "min") and
-                        mentions_call(e, "core::result::Result::unwrap_or"), ebg)
-    ise = cond_switches(g, lambda e: is_call(e, "core::result::Result::is_err"), ebg)
-    mib = {c.bb for c in mi}
-    if len(mi) < 4:
-        r.bad("repetition|sites", "extract_repetition has %d make_inexact sites, 4 confirmed" % len(mi), fn=g, construct="repetition")
-    if lt:
-        esc = C.all_paths_pass(g, [lt[0][1][1]], mib, g.return_blocks())
-        esc2 = C.all_paths_pass(g, [lt[0][2][1]], mib, g.return_blocks())
-        if not esc:
-            r.ok("repetition|range", "{m,n} with m<n ⇒ inexact", fn=g)
-        else:
-            r.bad("repetition|range", "a bounded repetition {m,n} (m<n) can yield an exact sequence", fn=g, construct="repetition")
-        if not esc2:
-            r.ok("repetition|open", "open-ended repetition ⇒ inexact", fn=g)
-        else:
-            r.bad("repetition|open", "an open-ended repetition ({m,}) can yield an exact sequence", fn=g, construct="repetition")
+    # value table over (rep.min, rep.max, limit_repeat): in which cases every way out passes make_inexact — whatever the
+    # arms are called and however the conditions are combined
+    from ..flow import always_after, combinator_model as _cm
+
+    def inexact_always(mn, mx, limit):
+        def fm(owner, name):
+            if owner == REP and name == "min":
+                return I(mn)
+            if owner == REP and name == "max":
+                return V("None", None) if mx is None else V("Some", I(mx))
+            if owner == EXT and name == "limit_repeat":
+                return I(limit)
+            return None
+
+        def inner(call, argv):
+            if call.path.endswith("TryFrom::try_from") and argv and argv[0] is not None:
+                return V("Ok", argv[0])
+            return None
+        return always_after(g, [c.bb for c in mi], g.return_blocks(), call_model=_cm(facts, inner, field_model=fm), field_model=fm)
+    if not mi:
+        r.bad("repetition|sites", "extract_repetition has no make_inexact site", fn=g, construct="repetition")
+    if inexact_always(2, 3, 10):
+        r.ok("repetition|range", "{m,n} with m<n ⇒ inexact", fn=g)
     else:
-        r.bad("repetition|range", "anchor-missing: no `min < max` test in extract_repetition", fn=g)
-    zero = [c for c in mi if ne1 and not guarded(g, [c.bb], ne1, True)]
-    if zero:
+        r.bad("repetition|range", "a bounded repetition {m,n} (m<n) can yield an exact sequence", fn=g, construct="repetition")
+    if inexact_always(2, None, 10):
+        r.ok("repetition|open", "open-ended repetition ⇒ inexact", fn=g)
+    else:
+        r.bad("repetition|open", "an open-ended repetition ({m,}) can yield an exact sequence", fn=g, construct="repetition")
+    if inexact_always(0, 3, 10) and inexact_always(0, None, 10):
         r.ok("repetition|zero", "{0,n}: inexact unless n == 1", fn=g)
     else:
         r.bad("repetition|zero", "`x*` / `x{0,n}` is no longer made inexact under max != Some(1)", fn=g, construct="repetition")
-    removed = {s_[1] for s_ in gtl} | {s_[1] for s_ in ise}
-    reach_wo = C.reach(g, [0], removed_edges=removed)
-    exact = [c for c in mi if gtl and c.bb not in reach_wo]
-    if exact:
+    if inexact_always(2, 2, 1):
         r.ok("repetition|exact", "{n}: inexact only when n exceeds the repeat limit", fn=g)
     else:
         r.bad("repetition|exact", "`x{n}` beyond the repeat limit is no longer made inexact", fn=g, construct="repetition")
@@ -692,12 +694,23 @@ def exact_rule(ctx, r):
     else:
         r.bad("cross|prefix", "Extractor::cross crosses with a sequence that is not a prefix", fn=cr, construct="cross")
     for fn_, combine in ((cr, TSEQ + "::cross_forward"), (facts.fn(EXT + "::union"), TSEQ + "::union")):
-        ebx = ExprBuilder(fn_)
         inf = fn_.calls_to(TSEQ + "::make_infinite")
         cmb = fn_.calls_to(combine)
-        lim = cond_switches(fn_, lambda e: mentions_call(e, "core::option::Option::map_or"), ebx)
-        if inf and cmb and lim and not guarded(fn_, [c.bb for c in inf], lim, True) and \
-                all(cmb[0].bb in C.reach_after(fn_, c.bb) for c in inf):
+        # value table: the projected size (max_cross_len / max_union_len) against limit_total = 10
+
+        def run_(size):
+            def fm(owner, name):
+                return I(10) if owner == EXT and name == "limit_total" else (I(1) if owner == TSEQ and name == "prefix" else None)
+
+            def inner(call, argv):
+                if call.path.endswith(("::max_cross_len", "::max_union_len")):
+                    return V("None", None) if size is None else V("Some", I(size))
+                return None
+            return _cm(facts, inner, field_model=fm), fm
+        cm_over, fm_over = run_(100)
+        over = inf and cmb and always_after(fn_, [c.bb for c in inf], [c.bb for c in cmb], call_model=cm_over, field_model=fm_over)
+        if over:
+            # (giving up although the size fits would lose a prefilter, not a match: not demanded)
             r.ok("%s|limit" % fn_.name, "over limit_total ⇒ operand made infinite before combining", fn=fn_)
         else:
             r.bad("%s|limit" % fn_.name, "Extractor::%s no longer gives up (infinite) when the combined size exceeds limit_total"
